@@ -522,6 +522,55 @@ func (ch c16) runStress(c *core.Ctx, round int) {
 	c.Eval(fmt.Sprintf("stress n=%d k=%d sent=%d adm=%d", nconn, nclose, sent.Load(), h.count("cmd:admitted")), true)
 }
 
+func (ch c16) deadTransport(c *core.Ctx, variant int) {
+	cs := map[string]any{"dead_transport_variant": variant}
+	e := &c16env{entered: make(chan string, 8)}
+	env := hs.Start(ch.parseFn(e))
+	conn := tr.NewConn(nil)
+	env.L.DialConn(conn)
+	cl := hs.NewClient(conn)
+	if err := cl.StartupOK("u"); err != nil {
+		c.Violate("startup", "startup failed", err.Error(), cs)
+		return
+	}
+	// from now on every server write fails (the client is gone), reads still deliver what was queued
+	conn.FailWriteAt = conn.Stats().Writes + 1
+	switch variant {
+	case 0: // malformed Query (no terminator): the handler returns a bare error
+		conn.Send(pg.Raw('Q', []byte("no terminator")))
+	case 1: // a statement that fails, reported through a dead transport
+		conn.Send(append(pg.Parse("", "plain", nil), pg.Raw('B', []byte{0})...))
+	default: // rows streamed into a dead transport
+		conn.Send(pg.Query("plain"))
+	}
+	conn.CloseWrite()
+	conn.WaitClosed()
+	closed := make(chan struct{})
+	go func() { env.Srv.Close(); close(closed) }()
+	select {
+	case <-closed:
+		c.Count("close_after_dead_transport", 1)
+	case <-time.After(15 * time.Second):
+		dump, lib := core.ClassifyHang()
+		if len(lib) > 0 {
+			c.Violate("deadlock", "Close never returns after a command failed on a dead transport: "+strings.Join(lib, "; "), trim(dump, 3000), cs)
+		} else {
+			c.Inconclusive("Close watchdog fired (dead transport) without a library-blocked goroutine")
+		}
+		c.Finish()
+		return
+	}
+	select {
+	case err := <-env.ServeErr:
+		if err != nil {
+			c.Violate("serve-error", "Serve returned a non-nil error after Close", err.Error(), cs)
+		}
+	case <-time.After(10 * time.Second):
+		c.Violate("serve-hang", "Serve did not return after Close", "", cs)
+	}
+	c.Eval(fmt.Sprintf("dead-transport %d", variant), true)
+}
+
 func (ch c16) multiListener(c *core.Ctx, nl int) {
 	cs := map[string]any{"listeners": nl}
 	e := &c16env{entered: make(chan string, 8)}
@@ -599,6 +648,13 @@ func (ch c16) Run(c *core.Ctx) {
 	}
 	if c.Batch == 0 {
 		c.Count("exhaustive_parts", 1)
+	}
+	// a command that fails fatally while its transport is already dead, then Close
+	for v := 0; v < 3; v++ {
+		if !c.Begin(60000+v) || c.NViol() >= 10 {
+			continue
+		}
+		ch.deadTransport(c, v)
 	}
 	// several listeners on one server: every Serve call must return nil after Close
 	for nl := 2; nl <= 3; nl++ {
